@@ -23,3 +23,12 @@ impl Chunk {
 pub struct Expression { _p: () }
 #[verifier::external_body]
 pub struct Node { _p: () }
+/// a set of variable names (HashSet<String>): contents not needed here
+#[verifier::external_body]
+pub struct VxSet { _p: () }
+#[verifier::external_body]
+pub fn vx_set_new() -> VxSet { unimplemented!() }
+#[verifier::external_body]
+pub fn vx_set_insert(s: &mut VxSet, v: String) -> bool { unimplemented!() }
+#[verifier::external_body]
+pub fn vx_clone_string(s: &String) -> (r: String) ensures r@ == s@ { unimplemented!() }
